@@ -51,10 +51,11 @@ def handmade_decode_inputs(rng):
         pass
     # invalid UTF-8 in route / key / value
     for bad in gen.INVALID_UTF8:
-        out.append(("req", pre + frame(req_hdr(bad, [])) + frame(b"")))
-        out.append(("req", pre + frame(req_hdr(b"/", [(bad, b"v")])) + frame(b"")))
-        out.append(("req", pre + frame(req_hdr(b"/", [(b"k", bad)])) + frame(b"")))
-        out.append(("resp", pre + frame(b"\xc8\x00" + gen.le64(1) + gen.le64(len(bad)) + bad + gen.le64(0)) + frame(b"")))
+        m = "invalid UTF-8 accepted into a String"
+        out.append(("req", pre + frame(req_hdr(bad, [])) + frame(b""), m))
+        out.append(("req", pre + frame(req_hdr(b"/", [(bad, b"v")])) + frame(b""), m))
+        out.append(("req", pre + frame(req_hdr(b"/", [(b"k", bad)])) + frame(b""), m))
+        out.append(("resp", pre + frame(b"\xc8\x00" + gen.le64(1) + gen.le64(len(bad)) + bad + gen.le64(0)) + frame(b""), m))
     # map counts that lie; huge counts and lengths
     for cnt in (0, 1, 2, 3, 2**16, 2**32, 2**63, 2**64 - 1):
         out.append(("req", pre + frame(req_hdr(b"/", [(b"a", b"b"), (b"c", b"d")], count=cnt)) + frame(b"zz")))
@@ -71,12 +72,14 @@ def handmade_decode_inputs(rng):
         out.append(("resp", pre + gen.be32(n) + b"\xc8\x00" + gen.le64(0)))
     # preambles
     for p in (b"anemo\x00\x01\x01", b"anemo\x00\x02\x00", b"anemo\x01\x00\x00", b"anemo\x00\x00\x00", b"Anemo\x00\x01\x00",
-              b"http3\x00\x01\x00", b"anemo\xff\xff\x00", b"anem", b"", b"anemo\x00\x01", b"\x00" * 8, b"anemo\x01\x01\x00"):
-        out.append(("req", p + frame(ok_h) + frame(b"")))
-        out.append(("resp", p + frame(b"\xc8\x00" + gen.le64(0)) + frame(b"")))
+              b"http3\x00\x01\x00", b"anemo\xff\xff\x00", b"anem", b"", b"anemo\x00\x01", b"\x00" * 8, b"anemo\x01\x01\x00",
+              b"anemo\x00\x01\xff", b"anemp\x00\x01\x00", b"bnemo\x00\x01\x00", b"anemo\x00\x81\x00", b"anemo\x80\x01\x00"):
+        out.append(("req", p + frame(ok_h) + frame(b""), "bad preamble or unknown version accepted"))
+        out.append(("resp", p + frame(b"\xc8\x00" + gen.le64(0)) + frame(b""), "bad preamble or unknown version accepted"))
     # unknown status codes in an otherwise valid response
     for code in (0, 1, 199, 201, 299, 300, 401, 499, 501, 519, 521, 65535, 200, 520):
-        out.append(("resp", pre + frame(bytes([code & 255, code >> 8]) + gen.le64(0)) + frame(b"xyz")))
+        out.append(("resp", pre + frame(bytes([code & 255, code >> 8]) + gen.le64(0)) + frame(b"xyz"),
+                    None if code in STATUSES else "unknown status code accepted"))
     # messages followed by extra bytes
     out.append(("req", pre + frame(ok_h) + frame(b"body") + b"extra"))
     # short response header frames
@@ -180,10 +183,11 @@ def run(chk):
             cases.append("dec%s none 0 %s" % (kind, hx(bytes(raw))))
             tags.append("mutation")
             raw[off] = old
-    for kind, raw in handmade_decode_inputs(chk.rng):
+    for item in handmade_decode_inputs(chk.rng):
+        kind, raw = item[0], item[1]
         for lim in ("none", "64"):
             cases.append("dec%s %s %d %s" % (kind, lim, chk.rng.choice([0, 1, 2]), hx(raw)))
-            tags.append("handmade")
+            tags.append("handmade" if len(item) < 3 or item[2] is None else "must-err:" + item[2])
     nrand = 300 if quick else 5000
     for i in range(nrand):
         n = chk.rng.choice([0, 1, 7, 8, 9, 12, 20, 40, 100])
@@ -201,12 +205,14 @@ def run(chk):
     for c, t, a, b in zip(cases, tags, ci, cm):
         chk.evaluations += 1
         chk.nontriv(c)
-        chk.count("decode:" + t)
+        chk.count("decode:" + t.split(":")[0])
         chk.count("decode-outcome:" + a.split(" ext")[0][:12].split()[0] + (":" + a.split()[1] if a.startswith("ERR") and len(a.split()) > 1 else ""))
         if a.startswith("PANIC") or a.startswith("CRASH") or a.startswith("TIMEOUT"):
             chk.monitor_fail("decoder panicked / crashed on input bytes", dict(case=c[:400], impl=a))
         elif t == "prefix" and not a.startswith("ERR"):
             chk.monitor_fail("a strict prefix of a valid message was accepted", dict(case=c[:400], impl=a[:200]))
+        elif t.startswith("must-err:") and not a.startswith("ERR"):
+            chk.monitor_fail(t[9:], dict(case=c[:400], impl=a[:200]))
         if a != b:
             chk.disagree(c[:400], a[:300], b[:300], "codec/decode")
     chk.sample(dict(case=cases[len(cases) // 2][:200], impl=ci[len(cases) // 2][:120], model=cm[len(cases) // 2][:120]))
